@@ -32,7 +32,9 @@ Base == [
                    methods |-> << [name |-> "f1", oneway |-> FALSE, ret |-> <<B("i32")>>, args |-> << F(1, "default", R("MyInt2"), "a"), F(5, "default", B("string"), "s5") >>, throws |-> << F(1, "optional", R("Ex1"), "e1") >> ],
                                   [name |-> "f2", oneway |-> FALSE, ret |-> <<>>, args |-> <<>>, throws |-> << F(1, "optional", R("Ex1"), "e1") >> ],
                                   [name |-> "f3", oneway |-> TRUE, ret |-> <<>>, args |-> << F(1, "default", B("string"), "s") >>, throws |-> <<>> ] >> ] >>,
-  scopes   |-> << [name |-> "Sc", prefix |-> << "foo", "{usr}", "bar" >>, ops |-> << [name |-> "Op1", t |-> R("S1")], [name |-> "Op2", t |-> R("MyInt2")] >> ] >>
+  scopes   |-> << [name |-> "Sc", prefix |-> << "foo", "{usr}", "bar" >>, ops |-> << [name |-> "Op1", t |-> R("S1")], [name |-> "Op2", t |-> R("MyInt2")] >> ],
+                  \* a scope that declares no prefix (its topics start with the scope name): giving it one changes every topic
+                  [name |-> "Bare", prefix |-> << >>, ops |-> << [name |-> "Op1", t |-> B("string")] >> ] >>
 ]
 CONSTANTS MaxDepth,
           OnlyCompatible   \* TRUE: walk only through programs the catalogue calls compatible (the "nothing else" half)
